@@ -7,6 +7,7 @@
 #include <fcntl.h>
 #include <fstream>
 #include <sys/stat.h>
+#include <sys/wait.h>
 #include <unistd.h>
 #include "common.h"
 
@@ -50,6 +51,8 @@ void teakra_verif_mem_access(std::uint32_t word_address, bool is_write) {
 }
 
 namespace sim {
+
+void prefill_pool(int own, int user); // box.cpp (weak no-op in builds without the facade)
 
 // ---------------------------------------------------------------- helpers
 std::string hex(u64 v, int width) {
@@ -263,8 +266,111 @@ static std::string ubsan_site(const std::string& text) {
     return fileline + ":" + kind;
 }
 
+// ---------------------------------------------------------------- outcome (de)serialisation for forked execution
+static std::string esc_line(const std::string& s) {
+    std::string r;
+    for (char c : s)
+        r += (c == '\n' || c == '\r' || c == '\t') ? ' ' : c;
+    return r;
+}
+static std::string map_text(const std::map<std::string, u64>& m) {
+    std::string r;
+    for (auto& kv : m)
+        r += kv.first + "=" + std::to_string(kv.second) + ";";
+    return r;
+}
+static void map_parse(const std::string& t, std::map<std::string, u64>& m) {
+    std::size_t i = 0;
+    while (i < t.size()) {
+        std::size_t e = t.find(';', i);
+        if (e == std::string::npos)
+            break;
+        std::string item = t.substr(i, e - i);
+        std::size_t q = item.rfind('=');
+        if (q != std::string::npos)
+            m[item.substr(0, q)] = std::strtoull(item.c_str() + q + 1, nullptr, 10);
+        i = e + 1;
+    }
+}
+std::string outcome_to_text(const Outcome& o) {
+    std::ostringstream s;
+    s << "cls\t" << esc_line(o.cls) << "\n";
+    s << "detail\t" << esc_line(o.detail) << "\n";
+    s << "hash\t" << o.hash << "\n";
+    s << "nontrivial\t" << (o.nontrivial ? 1 : 0) << "\n";
+    s << "sig\t" << o.sig << "\n";
+    s << "cycles\t" << o.sim_cycles << "\n";
+    s << "aborted\t" << (o.aborted ? 1 : 0) << "\n";
+    s << "abort_site\t" << esc_line(o.abort_site) << "\n";
+    s << "probes\t" << map_text(o.probes) << "\n";
+    s << "fc\t" << map_text(o.faults_configured) << "\n";
+    s << "ff\t" << map_text(o.faults_fired) << "\n";
+    s << "sigs\t";
+    int n = 0;
+    for (u64 v : o.state_sigs) {
+        if (n++ >= 256)
+            break;
+        s << v << ",";
+    }
+    s << "\n";
+    for (auto& nt : o.notes)
+        s << "note\t" << esc_line(nt) << "\n";
+    s << "end\t\n";
+    return s.str();
+}
+Outcome outcome_from_text(const std::string& text) {
+    Outcome o;
+    std::istringstream in(text);
+    std::string line;
+    bool ended = false;
+    while (std::getline(in, line)) {
+        std::size_t t = line.find('\t');
+        if (t == std::string::npos)
+            continue;
+        std::string k = line.substr(0, t), v = line.substr(t + 1);
+        if (k == "cls")
+            o.cls = v;
+        else if (k == "detail")
+            o.detail = v;
+        else if (k == "hash")
+            o.hash = std::strtoull(v.c_str(), nullptr, 10);
+        else if (k == "nontrivial")
+            o.nontrivial = v == "1";
+        else if (k == "sig")
+            o.sig = std::strtoull(v.c_str(), nullptr, 10);
+        else if (k == "cycles")
+            o.sim_cycles = std::strtoull(v.c_str(), nullptr, 10);
+        else if (k == "aborted")
+            o.aborted = v == "1";
+        else if (k == "abort_site")
+            o.abort_site = v;
+        else if (k == "probes")
+            map_parse(v, o.probes);
+        else if (k == "fc")
+            map_parse(v, o.faults_configured);
+        else if (k == "ff")
+            map_parse(v, o.faults_fired);
+        else if (k == "sigs") {
+            std::size_t i = 0;
+            while (i < v.size()) {
+                std::size_t e = v.find(',', i);
+                if (e == std::string::npos)
+                    break;
+                o.state_sigs.insert(std::strtoull(v.substr(i, e - i).c_str(), nullptr, 10));
+                i = e + 1;
+            }
+        } else if (k == "note")
+            o.notes.push_back(v);
+        else if (k == "end")
+            ended = true;
+    }
+    if (!ended)
+        o.cls = "CRASH";
+    return o;
+}
+
 // ---------------------------------------------------------------- executing a plan with the always-on invariants
-static Outcome run_plan(Scenario* sc, const Plan& plan) {
+static Outcome run_plan_here(Scenario* sc, const Plan& plan) {
     capture_reset();
     hooks() = HookState{};
     Outcome out;
@@ -287,18 +393,148 @@ static Outcome run_plan(Scenario* sc, const Plan& plan) {
         std::string site = ubsan_site(cap);
         if (!site.empty()) {
             // an undefined-behaviour report inside any simulated run is a C18 violation
-            if (out.cls.empty() || out.cls.rfind("C18.ubsan", 0) != 0) {
-                Outcome o2 = out;
-                o2.cls = "C18.ubsan:" + site;
-                o2.detail = cap.substr(0, std::min<std::size_t>(cap.size(), 300));
-                if (out.cls.empty())
-                    out = o2;
+            if (out.cls.empty()) {
+                out.cls = "C18.ubsan:" + site;
+                out.detail = cap.substr(0, std::min<std::size_t>(cap.size(), 300));
             }
         } else if (cap.find("ThreadSanitizer") != std::string::npos && out.cls.empty()) {
             out.violate("C19.data-race", cap.substr(0, 600));
         }
     }
     return out;
+}
+
+static bool g_isolate = false; // execute every plan in a forked child (scenario uses the box pool)
+static std::string g_last_crash_text;
+
+static std::string read_all_fd(int fd) {
+    std::string r;
+    char buf[65536];
+    for (;;) {
+        ssize_t n = ::read(fd, buf, sizeof buf);
+        if (n < 0) {
+            if (errno == EINTR)
+                continue;
+            break;
+        }
+        if (n == 0)
+            break;
+        r.append(buf, (std::size_t)n);
+    }
+    return r;
+}
+
+// Runs `body` in a forked child; the child's return string travels back over a pipe.
+// Returns false if the child died (sanitizer abort, signal, timeout); status then holds waitpid status.
+static bool in_child(const std::function<std::string()>& body, std::string& result, int& status) {
+    int fds[2];
+    if (::pipe(fds) != 0)
+        _exit(4);
+    std::fflush(stdout);
+    std::fflush(stderr);
+    pid_t pid = ::fork();
+    if (pid < 0)
+        _exit(4);
+    if (pid == 0) {
+        ::close(fds[0]);
+        ::alarm(300);
+        std::string r = body();
+        const char* p = r.data();
+        std::size_t n = r.size();
+        while (n) {
+            ssize_t w = ::write(fds[1], p, n);
+            if (w < 0) {
+                if (errno == EINTR)
+                    continue;
+                break;
+            }
+            p += w;
+            n -= (std::size_t)w;
+        }
+        ::close(fds[1]);
+        std::fflush(stdout);
+        std::fflush(stderr);
+        _exit(0);
+    }
+    ::close(fds[1]);
+    result = read_all_fd(fds[0]);
+    ::close(fds[0]);
+    status = 0;
+    while (::waitpid(pid, &status, 0) < 0 && errno == EINTR) {
+    }
+    return WIFEXITED(status) && WEXITSTATUS(status) == 0;
+}
+
+static Outcome crash_outcome(int status) {
+    Outcome o;
+    int code = WIFSIGNALED(status) ? -WTERMSIG(status) : WEXITSTATUS(status);
+    o.cls = "CRASH";
+    g_last_crash_text = capture_read();
+    o.detail = fmt("child process died with status %d", code);
+    o.hash = (u64)(s64)code;
+    return o;
+}
+
+static Outcome run_plan(Scenario* sc, const Plan& plan) {
+    if (!g_isolate)
+        return run_plan_here(sc, plan);
+    std::string text;
+    int status = 0;
+    bool ok = in_child([&]() { return outcome_to_text(run_plan_here(sc, plan)); }, text, status);
+    if (!ok)
+        return crash_outcome(status);
+    Outcome o = outcome_from_text(text);
+    if (o.cls == "CRASH")
+        o.detail = "child result truncated";
+    return o;
+}
+
+// generate + execute in one child (the generator may itself need a pristine instance)
+static Outcome generate_and_run(Scenario* sc, u64 run_seed, const Tier& tier, const std::string& prop, Plan& plan_out, bool& have_plan) {
+    have_plan = false;
+    if (!g_isolate) {
+        plan_out = sc->generate(run_seed, tier);
+        plan_out.prop = prop;
+        plan_out.seed = run_seed;
+        have_plan = true;
+        return run_plan_here(sc, plan_out);
+    }
+    std::string text;
+    int status = 0;
+    bool ok = in_child(
+        [&]() {
+            Plan p = sc->generate(run_seed, tier);
+            p.prop = prop;
+            p.seed = run_seed;
+            std::string pt = p.to_text();
+            // send the plan first so that it survives a crash of the execution
+            std::string head = "PLANBYTES " + std::to_string(pt.size()) + "\n" + pt;
+            return head + outcome_to_text(run_plan_here(sc, p));
+        },
+        text, status);
+    // the child writes everything at the end, so on a crash there is no plan: regenerate it alone
+    if (!ok || text.rfind("PLANBYTES ", 0) != 0) {
+        std::string ptext;
+        int st2 = 0;
+        bool gok = in_child(
+            [&]() {
+                Plan p = sc->generate(run_seed, tier);
+                p.prop = prop;
+                p.seed = run_seed;
+                return p.to_text();
+            },
+            ptext, st2);
+        if (gok) {
+            plan_out = Plan::from_text(ptext);
+            have_plan = true;
+        }
+        return crash_outcome(status);
+    }
+    std::size_t nl = text.find('\n');
+    std::size_t n = std::strtoull(text.c_str() + 10, nullptr, 10);
+    plan_out = Plan::from_text(text.substr(nl + 1, n));
+    have_plan = true;
+    return outcome_from_text(text.substr(nl + 1 + n));
 }
 
 // ---------------------------------------------------------------- minimisation (ddmin over steps, then argument/knob simplification)
@@ -455,21 +691,30 @@ static int cmd_worker(int argc, char** argv) {
     }
     ::mkdir(outdir.c_str(), 0755);
     setup_fds(outdir + "/" + prop + "-w" + std::to_string(start) + ".stderr");
-    report(fmt("HELLO prop=%s seed=%llu start=%llu stride=%llu", prop.c_str(), (unsigned long long)seed,
-               (unsigned long long)start, (unsigned long long)stride));
+    auto need = sc->pool_need();
+    g_isolate = need.first + need.second > 0;
     auto t0 = std::chrono::steady_clock::now();
+    if (g_isolate)
+        prefill_pool(need.first, need.second);
+    report(fmt("HELLO prop=%s seed=%llu start=%llu stride=%llu isolate=%d", prop.c_str(), (unsigned long long)seed,
+               (unsigned long long)start, (unsigned long long)stride, g_isolate ? 1 : 0));
     u64 runs = 0;
-    for (u64 i = start; runs < max_runs; i += stride) {
+    std::map<std::string, int> seen_classes;
+    int total_viol = 0;
+    for (u64 i = start; runs < max_runs && total_viol < 40; i += stride) {
         double el = std::chrono::duration<double>(std::chrono::steady_clock::now() - t0).count();
         if (el >= budget_s)
             break;
         u64 run_seed = mix(mix(seed, hash_str(prop.c_str())), i);
         report(fmt("START %llu", (unsigned long long)i));
-        Plan plan = sc->generate(run_seed, tier);
-        plan.prop = prop;
-        plan.seed = run_seed;
-        Outcome out = run_plan(sc, plan);
+        Plan plan;
+        bool have_plan = false;
+        Outcome out = generate_and_run(sc, run_seed, tier, prop, plan, have_plan);
         ++runs;
+        if (!have_plan) {
+            report(fmt("CRASHGEN %llu detail=%s", (unsigned long long)i, escape(out.detail).c_str()));
+            continue;
+        }
         bool rechecked = false;
         if (!out.ok() || (recheck_every && (i / stride) % recheck_every == 0)) {
             Outcome again = run_plan(sc, plan);
@@ -507,7 +752,10 @@ static int cmd_worker(int argc, char** argv) {
             write_file(f, plan.to_text());
             report("SAMPLE " + f);
         }
-        if (!out.ok()) {
+        if (!out.ok() && (++total_viol, seen_classes[out.cls]++ >= 2)) {
+            // already minimised and reported twice by this worker: count only
+            report(fmt("VIOLX %llu cls=%s", (unsigned long long)i, out.cls.c_str()));
+        } else if (!out.ok()) {
             Minimizer m{sc, out.cls, 0, (int)env_u64("VERIF_SHRINK_RERUNS", 400),
                         std::chrono::steady_clock::now() + std::chrono::seconds(env_u64("VERIF_SHRINK_S", 20))};
             std::size_t before = plan.steps.size();
@@ -542,16 +790,21 @@ static int cmd_genplan(int argc, char** argv) {
     if (!sc)
         return 2;
     u64 run_seed = mix(mix(seed, hash_str(prop.c_str())), index);
+    int real_out = ::dup(1);
+    int nul = ::open("/dev/null", O_WRONLY);
+    ::dup2(nul, 1);
     Plan plan = sc->generate(run_seed, tier);
     plan.prop = prop;
     plan.seed = run_seed;
+    std::fflush(stdout);
+    ::dup2(real_out, 1);
     std::fputs(plan.to_text().c_str(), stdout);
     return 0;
 }
 
 static int cmd_replay(int argc, char** argv) {
     // teaksim replay <file>   exit: 0 = no violation, 1 = violation reproduced with the expected class,
-    //                                3 = a different class, 2 = usage
+    //                                3 = a different class, 4 = not deterministic, 5 = the run kills its process, 2 = usage
     if (argc < 3)
         return 2;
     std::string path = argv[2];
@@ -562,7 +815,16 @@ static int cmd_replay(int argc, char** argv) {
         return 2;
     }
     setup_fds(path + ".stderr");
+    auto need = sc->pool_need();
+    g_isolate = need.first + need.second > 0;
     Outcome out = run_plan(sc, plan);
+    if (out.cls == "CRASH") {
+        report(fmt("REPLAY cls=CRASH hash=%llx deterministic=1 aborted=0 detail=%s", (unsigned long long)out.hash,
+                   escape(out.detail).c_str()));
+        // leave the sanitizer report in <file>.stderr for the driver
+        write_file(path + ".stderr", g_last_crash_text);
+        return 5;
+    }
     Outcome again = run_plan(sc, plan);
     bool det = again.hash == out.hash && again.cls == out.cls;
     report(fmt("REPLAY cls=%s hash=%llx deterministic=%d aborted=%d detail=%s", out.cls.empty() ? "-" : out.cls.c_str(),
